@@ -146,6 +146,7 @@ def drive(br, interp, events, parts, a, b, native=None):
         offs.append(offs[-1] + n)
     arrs = RecordingDict()
     boffs = {}
+    decoded = []
     for i in loaded_baskets(offs, a, b):
         evs = events[offs[i]:offs[i + 1]]
         data = np.frombuffer(b"".join(evs), dtype=np.uint8)
@@ -156,11 +157,17 @@ def drive(br, interp, events, parts, a, b, native=None):
             boffs[i] = [int(x) for x in np.asarray(lay.offsets)]
         except Exception:
             boffs[i] = None
-        dict.__setitem__(arrs, i, arr)
+        decoded.append((i, arr))
         if native is not None and boffs[i] is not None:
             fh, op, index, tag = native
             fh.write(f"{op} {data.tobytes().hex() or '-'} {len(bo)} " + " ".join(str(int(x)) for x in bo) + "\n")
             index.append({**tag, "basket": i, "offsets": boffs[i], "has_y": "m_recPositionY" in (lay.content.fields or [])})
+    # uproot fills {basket number: array} in COMPLETION order (threaded decompression / interpretation): the mapping is keyed by
+    # basket number and its insertion order carries no meaning - every other case hands it over last-basket-first
+    if (a + b + len(parts)) % 2:
+        decoded.reverse()
+    for i, arr in decoded:
+        dict.__setitem__(arrs, i, arr)
     out = interp.final_array(arrs, a, b, offs, LIB, br, {})
     return out, arrs.asked, boffs
 
@@ -398,6 +405,15 @@ def run_concat(datadir, cases):
         spec = [{os.path.join(datadir, f): "Event/" + path} for f in files]
         try:
             got = uproot.concatenate(spec)
+            if n_eval % 3 == 0:       # the package's own multi-file reader (alias of uproot.concatenate), files given as ONE ordered mapping
+                import warnings
+                import pybes3
+                with warnings.catch_warnings():
+                    warnings.simplefilter("ignore")
+                    alt = pybes3.concatenate({os.path.join(datadir, f): "Event/" + path for f in files}) if len(set(files)) == len(files) else None
+                if alt is not None and (len(alt) != len(got) or digest(alt[path.split("/")[-1]]) != digest(got[path.split("/")[-1]])):
+                    mism.append({"kind": "concat-alias", "file": ",".join(files), "branch": path, "detail": [], "type_equal": True, "values_equal": False,
+                                 "got_type": "pybes3.concatenate(mapping in this order) differs from uproot.concatenate of the same ordered files"})
         except Exception as ex:  # noqa: BLE001
             mism.append({"kind": "concat-exception", "file": ",".join(files), "branch": path, "detail": [],
                          "type_equal": False, "values_equal": False, "got_type": type(ex).__name__ + ": " + str(ex)[:300]})
